@@ -47,7 +47,7 @@ def build(config, tier):
             S, TT = m.group(1), m.group(2)
             if S in MAT_BY_NAME and TT in MAT_BY_NAME:
                 conv.append(("From<%s> for %s" % (S, TT), MAT_BY_NAME[S], MAT_BY_NAME[TT], "<%s>::from(s)" % TT, "bits"))
-        for m in re.finditer(r"pub fn (as_\w+)\(&self\) -> (?:crate::)?(\w+)", src):
+        for m in re.finditer(r"pub (?:const )?fn (as_\w+)\(&self\) -> (?:crate::)?(\w+)", src):
             fn, TT = m.group(1), m.group(2)
             if TT in MAT_BY_NAME:
                 conv.append(("%s::%s" % (T.name, fn), T, MAT_BY_NAME[TT], "s.%s()" % fn, "as"))
@@ -143,7 +143,7 @@ def build(config, tier):
     spec = """
     // Shepperd's method as documented: branch on m22, then on m11 -/+ m00; components from the pivot
     let (m00, m01, m02, m10, m11, m12, m20, m21, m22) = (mi[0], mi[1], mi[2], mi[3], mi[4], mi[5], mi[6], mi[7], mi[8]);
-    let (t, num): (i64, [i64; 4]) = if m22 <= 0 {
+    let (t, num): (i16, [i16; 4]) = if m22 <= 0 {
         if m11 - m00 <= 0 { let t = 1 - m22 - m11 + m00; (t, [t, m01 + m10, m02 + m20, m12 - m21]) }
         else { let t = 1 - m22 + m11 - m00; (t, [m01 + m10, t, m12 + m21, m20 - m02]) }
     } else {
